@@ -24,7 +24,7 @@ for cid in sys.argv[1:]:
         meta = {
             "id": f"{cid}-r{ROUND}-{n}",
             "breaks_property": cid,
-            "origin": f"fresh sub-agent given only the property text and a scratch worktree of /repo (HEAD {os.environ.get("BASE", "c487667")}, {ORD} round: told which changes the earlier rounds had produced and asked for different ones)",
+            "origin": f"fresh sub-agent given only the property text and a scratch worktree of /repo (HEAD {os.environ.get('BASE', 'c487667')}, {ORD} round: told which changes the earlier rounds had produced and asked for different ones)",
             "needs_to_manifest": notes.strip().split("\n\n")[0][:1500],
             "confirmed_by": "tools/validate_seeded.sh: patch applied to a clean scratch worktree, cargo build, cargo test --workspace --no-fail-fast --offline (3 + 336 passed, 0 failed), demo.sd run with and without the change",
             "validation": val.strip().splitlines(),
